@@ -170,6 +170,8 @@ def _run_paths(prefixes, slice_s, max_decisions):
             col.error("solver answered unknown: %s" % (u,))
         except engine.HarnessError as h:
             col.error("harness error: %s\n%s" % (h, traceback.format_exc(limit=8)))
+        except Exception as ex:  # noqa: a bug in the harness itself (exceptions of the code under test are caught there)
+            col.error("harness raised %r\n%s" % (ex, traceback.format_exc(limit=6)))
     try:
         left = eng.explore(one, prefixes=prefixes, time_slice=slice_s)
     except engine.EngineSignal as s:
